@@ -395,16 +395,19 @@ def run(tier: str) -> Run:
                         'is missing; distance = |axle position|', 6)
     ffi = repo.func('tof.chopper_cascade', 'Chopper.from_disk_chopper')
     from fractions import Fraction as Fr
-    for sign, freq, npulses in ((1, 28, 3), (-1, 28, 3), (1, 14, 2), (-1, 7, 3), (1, 7, 2), (1, Fr(7, 2), 4)):
+    for sign, freq, npulses, slits in ((1, 28, 3, 2), (-1, 28, 3, 2), (1, 14, 2, 2), (-1, 7, 3, 2), (1, 7, 2, 2), (1, Fr(7, 2), 4, 2),
+                                       # one slit (given as an array of one, and as 0-d edges), three slits
+                                       (1, 28, 3, 1), (-1, 7, 3, 1), (1, 14, 3, 0), (-1, 28, 2, 3)):
         T.reset()
         wm = WitnessModel()
         wi = WitnessInterp(repo, wm)
-        kind, ch = construct_chopper(wi, wm, cls, (10, 200), (40, 330), freq=sign * freq, beam=30, phase=400)
+        b_, e_ = {2: ((10, 200), (40, 330)), 1: ((10,), (40,)), 0: (10, 40), 3: ((10, 100, 200), (40, 150, 330))}[slits]
+        kind, ch = construct_chopper(wi, wm, cls, b_, e_, freq=sign * freq, beam=30, phase=400)
         fp = sym_scalar(wi, wm, 'fp', Unit.named('Hz'), 14, positive=True)
         k1, to = call(wi, ofi, [], {'pulse_frequency': fp}, bound=ch)
         k2, tc = call(wi, cfi_, [], {'pulse_frequency': fp}, bound=ch)
         kind, res = call(wi, ffi, [], {'disk_chopper': ch, 'pulse_frequency': fp, 'npulses': npulses})
-        inst = f"{'clockwise' if sign < 0 else 'anticlockwise'}, |f| = {freq} Hz against 14 Hz pulses, {npulses} pulses"
+        inst = f"{'clockwise' if sign < 0 else 'anticlockwise'}, |f| = {freq} Hz against 14 Hz pulses, {npulses} pulses, {slits if slits else 'one 0-d'} slit(s)"
         if kind != 'return' or not isinstance(res, SObj) or k1 != 'return' or k2 != 'return':
             r5.fail(inst, loc(ffi), {'outcome': (kind, res if kind == 'raise' else None)}, key='from-disk-chopper:outcome')
             continue
